@@ -54,6 +54,10 @@ def g_pool(draw):
             for k_ in ("n", "sum_px", "sum_pxx"):
                 s_[k_][dead] = 0.0
     c["iv_sessions"] = iv_sessions
+    # fixed MAP ratios given per component as an array (caller-owned), and optionally a prior component so far from
+    # the data that it receives no evidence
+    c["alpha"] = r.uniform(0.1, 0.9, C)
+    c["prior_far"] = gen.integer(draw, 0, C - 1) if (C >= 2 and gen.choice(draw, [True, True, True, False])) else None
     fa = sut.fa_ref(c)
     c.update(X=X, y=y, init=init, sessions=sessions, ylab=ylab, z=r.normal(0, 1, fa.CF),
              yy=(r.normal(0, 1, fa.rV) if c["jfa"] else None), offsets=np.sqrt(p["variances"]) * r.normal(0, 0.3, (C, F)),
@@ -81,7 +85,14 @@ class Pool:
         self.ylist = [int(v) for v in case["y"]]
         self.init = np.array(case["init"], dtype=float)
         self.ubm = sut.make_gmm(case["ubm"])
-        self.prior = sut.make_gmm(case["ubm"])
+        pp = dict(case["ubm"])
+        if case.get("prior_far") is not None:
+            pp["means"] = np.array(pp["means"], copy=True)
+            j = int(case["prior_far"])
+            pp["means"][j] = pp["means"][j] + 1e3 * np.sqrt(np.asarray(pp["variances"])[j])
+        self.prior_params = pp
+        self.prior = sut.make_gmm(pp)
+        self.alpha = np.array(case.get("alpha", np.full(int(case["ubm"]["C"]), 0.5)), dtype=float)
         self.stats = [sut.make_stats(s) for s in case["sessions"]]
         self.iv_stats = [sut.make_stats(s) for s in case.get("iv_sessions", case["sessions"])]
         self.ylab = np.array(case["ylab"])
@@ -96,7 +107,7 @@ class Pool:
 
     def members(self):
         out = {"X": self.X, "Xbuf": self.Xbuf, "y": self.y, "init": self.init, "ylab": self.ylab, "offsets": self.offsets,
-               "z": self.z, "models": self.models, "ylist": np.array(self.ylist)}
+               "z": self.z, "models": self.models, "ylist": np.array(self.ylist), "alpha": self.alpha}
         if self.yy is not None:
             out["yy"] = self.yy
         for name, g in (("ubm", self.ubm), ("prior", self.prior), ("fa.ubm", self.fa.ubm)):
@@ -213,21 +224,26 @@ def run_op(pool, op):
     elif name in ("gmm_map_fit", "map_prior_alias"):
         steps = 0 if name == "map_prior_alias" else 2
 
-        def build(prior):
+        def build(prior, alpha=None):
+            kw = {}
+            if op["flag"] or case.get("prior_far") is not None:
+                # fixed adaptation ratios, one per component, handed over as the caller's array
+                kw = dict(map_relevance_factor=None, map_alpha=pool.alpha if alpha is None else alpha)
             return GMMMachine(prior.n_gaussians, trainer="map", ubm=prior, max_fitting_steps=steps, convergence_threshold=None,
-                              update_means=True, update_variances=False, update_weights=case["upd"][2])
+                              update_means=True, update_variances=False, update_weights=case["upd"][2], **kw)
         g = build(pool.prior)
         if steps:
             g.fit(data)
         res = {"w": g.weights, "m": g.means, "v": g.variances}
 
         def train():
-            pr = sut.make_gmm(case["ubm"])
+            pr = sut.make_gmm(pool.prior_params)
             Xc = pool.X.copy()
-            mm = build(pr)
+            ac = pool.alpha.copy()
+            mm = build(pr, ac)
             if steps:
                 mm.fit(Xc)
-            owned = [Xc, pr.means, pr.variances, pr.weights]
+            owned = [Xc, pr.means, pr.variances, pr.weights] + ([ac] if (op["flag"] or case.get("prior_far") is not None) else [])
             if np.ndim(pr.variance_thresholds):
                 owned.append(pr.variance_thresholds)
             return mm, owned
